@@ -102,6 +102,8 @@ def bounded_lexer(tier, seed):
 
 spec.EXTRA_CHECKS = getattr(spec, 'EXTRA_CHECKS', {})
 spec.EXTRA_CHECKS.setdefault('C16', []).append(bounded_lexer)
+for _pid in ('C19', 'C06', 'C01'):        # what the lexer delivers is what is printed / compiled / run
+    spec.EXTRA_CHECKS.setdefault(_pid, []).append(bounded_lexer)
 
 
 # ---- tokens are told apart by their CLASS, not by their text: a quoted string is a value whatever it spells
@@ -220,3 +222,14 @@ def braces_or_not(m, src, d1, d2):
         return {'m': m, 'src': src, 'd1': 'with_braces', 'd2': 'without', '_v': v}
     c.setup(_setup)
     c.ensures('same-value-either-way', 'result[0] == _v and result[1] == _v and result[2] == 0')
+
+
+# ---- the names the compiler reserves for built-in functions are exactly the documented ones: nothing else that happens
+#      to live in the module of the built-ins (an imported helper, a decorator) becomes a reserved routine name
+c = contract('bardolph/runtime/runtime_module.py', 'Runtime.__init__', serves=['C16', 'C02'])
+def _setup(b, case):
+    from pyvc.values import PyObj
+    return {'self': PyObj(b.cls('bardolph.runtime.runtime_module', 'Runtime'), {})}
+c.setup(_setup)
+DOCUMENTED = ('acos', 'asin', 'atan', 'ceil', 'cos', 'cycle', 'floor', 'random', 'round', 'sin', 'sqrt', 'tan', 'trunc')
+c.ensures('exactly-the-documented-functions', 'len(self._fns) == %d and %s' % (len(DOCUMENTED), ' and '.join("'%s' in self._fns" % n for n in DOCUMENTED)))
